@@ -105,7 +105,9 @@ Canon(t) ==
       [] t.k = "bin" /\ t.op \in {"AND", "OR", "XOR"} -> [k |-> "chain", op |-> t.op, items |-> ChainItems(t, t.op)]
       [] t.k = "bin" -> [k |-> "bin", op |-> t.op, l |-> Canon(t.l), r |-> Canon(t.r)]
       [] t.k = "num" /\ t.n \in NegNums -> [k |-> "neg", a |-> [k |-> "num", n |-> AbsNum(t.n)]]
-      [] t.k \in {"neg", "not", "isnull"} -> [k |-> t.k, a |-> Canon(t.a)]
+      \* (a double negation is the expression itself: a renderer that drops NOT NOT keeps the grouping if it keeps the brackets)
+      [] t.k = "not" -> IF t.a.k = "not" THEN Canon(t.a.a) ELSE [k |-> "not", a |-> Canon(t.a)]
+      [] t.k \in {"neg", "isnull"} -> [k |-> t.k, a |-> Canon(t.a)]
       [] t.k = "in" -> [k |-> "in", a |-> Canon(t.a), items |-> CanonSeq(t.items)]
       [] t.k = "between" -> [k |-> "between", a |-> Canon(t.a), lo |-> Canon(t.lo), hi |-> Canon(t.hi)]
       [] t.k = "call" -> [k |-> "call", f |-> t.f, args |-> CanonSeq(t.args)]
